@@ -188,6 +188,7 @@ static int number_from_pyobject(PyObject *o, number *a, int id)
                 !PyFloat_Check(o)) return -1;
 #endif
             (*a).d = PyFloat_AsDouble(o);
+            if (PyErr_Occurred()) return -1;
             return 0;
 
         case COMPLEX:
@@ -204,6 +205,7 @@ static int number_from_pyobject(PyObject *o, number *a, int id)
 #else
             (*a).z = _Cbuild(PyComplex_RealAsDouble(o),PyComplex_ImagAsDouble(o));
 #endif
+            if (PyErr_Occurred()) return -1;
             return 0;
     }
     return -1;
